@@ -85,6 +85,12 @@ type Case struct {
 	// intermediate does before a restart / SIGHUP reload — on the chain of the case. The CA's own
 	// server certificate is then obtained the way the binary does: ca.New(config) -> Init.
 	Cfg string `json:",omitempty"`
+	// Ord (chains with two or more intermediates, options only): the embedder gives the signer
+	// option the issuing certificate alone (WithX509Signer) and the complete list of intermediates
+	// with WithX509IntermediateCerts — "iclast": after the signer option, "icfirst": before it.
+	// The CAS then returns the issuing certificate only; the other intermediates are known to
+	// the relying party.
+	Ord string `json:",omitempty"`
 }
 
 var (
@@ -250,6 +256,15 @@ type built struct {
 	issKy crypto.Signer
 	cfg   *config.Config // Cfg "files": the configuration the authority was started from
 	dir   string
+	short bool // Ord cases: the CAS returns the issuing certificate only
+}
+
+// returned is the chain the CA is expected to hand out with a leaf.
+func (b *built) returned() int {
+	if b.short {
+		return 1
+	}
+	return len(b.ints)
 }
 
 func (b *built) close() {
@@ -379,6 +394,14 @@ func build(k *Case) (*built, bool) {
 	var err error
 	if k.Cfg != "" {
 		a, err = k.fromFiles(b, keys[n-1])
+	} else if k.Ord == "icfirst" && len(b.ints) >= 2 {
+		b.short = true
+		a, err = authority.NewEmbedded(k.rootOption(b), authority.WithX509IntermediateCerts(b.ints...),
+			authority.WithX509Signer(b.ints[0], b.issKy), authority.WithX509Enforcers(addDNS{&curEnf}))
+	} else if k.Ord == "iclast" && len(b.ints) >= 2 {
+		b.short = true
+		a, err = authority.NewEmbedded(k.rootOption(b), authority.WithX509Signer(b.ints[0], b.issKy),
+			authority.WithX509IntermediateCerts(b.ints...), authority.WithX509Enforcers(addDNS{&curEnf}))
 	} else {
 		a, err = authority.NewEmbedded(k.rootOption(b), authority.WithX509SignerChain(b.ints, b.issKy),
 			authority.WithX509Enforcers(addDNS{&curEnf}))
@@ -415,6 +438,9 @@ func (k *Case) render(b *built) (string, bool) {
 	san := ""
 	if k.SanExt {
 		san = " san=ext"
+	}
+	if b.short && k.Ord == "icfirst" {
+		san += " ord=icfirst"
 	}
 	return fmt.Sprintf("st=chain ints=%s %s %s%s case=x%s", strings.Join(ints, "|"), k.rootFields(b), names, san, hex.EncodeToString(js)), true
 }
@@ -549,10 +575,10 @@ func (k *Case) run(b *built) (out string, ok bool) {
 		if eng != "allow" {
 			return "inconsistent:" + op + "=issued eng=" + eng, true
 		}
-		if len(rc) != 1+len(b.ints) || rc[0].CheckSignatureFrom(b.ints[0]) != nil {
+		if len(rc) != 1+b.returned() || rc[0].CheckSignatureFrom(b.ints[0]) != nil {
 			return "inconsistent:" + op + "-chain", true
 		}
-		if sv := verifyAt(rc[0], rc[1:], b.root, time.Now()); sv != vfy {
+		if sv := verifyAt(rc[0], b.ints, b.root, time.Now()); sv != vfy {
 			return "inconsistent:" + op + "-vfy=" + sv + " direct-vfy=" + vfy, true
 		}
 	}
@@ -691,7 +717,7 @@ sign:
 		// x509util writes the SANs in the order of the template (dns, ip, e-mail, uri), Go in its
 		// own (dns, e-mail, ip, uri): which name a verifier trips over first may differ, whether
 		// it accepts may not
-		if sv := verify(chain[0], chain[1:], b.root); (sv == "ok") != (vfy == "ok") {
+		if sv := verify(chain[0], b.ints, b.root); (sv == "ok") != (vfy == "ok") {
 			return "inconsistent:issued-vfy=" + sv + " direct-vfy=" + vfy, true
 		}
 		return "eng=allow vfy=" + vfy, true
@@ -708,13 +734,13 @@ sign:
 		return "inconsistent:sign=issued eng=" + eng, true
 	}
 	// what the CA returned: leaf + chain; verify exactly that against the configured root
-	if len(chain) != 1+len(b.ints) {
+	if len(chain) != 1+b.returned() {
 		return fmt.Sprintf("inconsistent:chainlen=%d", len(chain)), true
 	}
 	if err := chain[0].CheckSignatureFrom(b.ints[0]); err != nil {
 		return "inconsistent:signature", true
 	}
-	if sv := verify(chain[0], chain[1:], b.root); sv != vfy {
+	if sv := verify(chain[0], b.ints, b.root); sv != vfy {
 		return "inconsistent:issued-vfy=" + sv + " direct-vfy=" + vfy, true
 	}
 	return "eng=allow vfy=" + vfy, true
@@ -743,6 +769,12 @@ func corner() []*Case {
 		{Levels: []gen.Level{{PURI: ex("example.com")}, {}}, Names: gen.Names{URIs: ex("https://.example.com/p")}},
 		{Levels: []gen.Level{{PDNS: ex("example.com")}, {}}, Names: gen.Names{DNS: ex(".www.example.com")}},
 		{Levels: []gen.Level{{PEm: ex("example.com")}, {}}, Names: gen.Names{Emails: ex("a@.example.com")}},
+		// the embedder's options: signer with the issuing certificate only + the list of intermediates
+		{Levels: []gen.Level{{}, {PDNS: ex("internal.example")}, {}}, Ord: "icfirst", Names: gen.Names{DNS: ex("www.evil.example")}},
+		{Levels: []gen.Level{{}, {PDNS: ex("internal.example")}, {}}, Ord: "iclast", Names: gen.Names{DNS: ex("www.evil.example")}},
+		{Levels: []gen.Level{{}, {PDNS: ex("internal.example")}, {}}, Ord: "icfirst", Names: gen.Names{DNS: ex("www.internal.example")}},
+		{Levels: []gen.Level{{}, {}, {XDNS: ex("bad.example.com")}}, Ord: "iclast", Names: gen.Names{DNS: ex("x.bad.example.com")}},
+		{Levels: []gen.Level{{}, {}, {XDNS: ex("bad.example.com")}}, Ord: "icfirst", Names: gen.Names{DNS: ex("x.bad.example.com")}},
 		// the authority started from configuration files, after a rotation of the intermediate
 		{Levels: []gen.Level{{PDNS: ex("example.org")}, {}}, Cfg: "files", Names: gen.Names{DNS: ex("web.example.com")}, TLS: ex("web.example.com")},
 		{Levels: []gen.Level{{PDNS: ex("example.org")}, {}}, Cfg: "files", Names: gen.Names{DNS: ex("ca.example.org")}, TLS: ex("ca.example.org")},
@@ -886,6 +918,8 @@ func main() {
 			k.Bundle = c.Pick(rr, []string{"crl", "tail", "hdr"})
 		} else if rr.Chance(1, 4) {
 			k.Cfg = c.Pick(rr, []string{"files", "files2"})
+		} else if len(k.Levels) >= 3 && rr.Chance(1, 2) {
+			k.Ord = c.Pick(rr, []string{"icfirst", "iclast"})
 		}
 		b, ok := build(k)
 		if !ok {
@@ -893,7 +927,7 @@ func main() {
 			continue
 		}
 		for j := 0; j < *per; j++ {
-			kk := &Case{Levels: k.Levels, KeyID: k.KeyID, Bundle: k.Bundle, Cfg: k.Cfg, Names: gen.GenNames(rr.Fork(), true, k.Levels)}
+			kk := &Case{Levels: k.Levels, KeyID: k.KeyID, Bundle: k.Bundle, Cfg: k.Cfg, Ord: k.Ord, Names: gen.GenNames(rr.Fork(), true, k.Levels)}
 			if re := rr.Fork(); re.Chance(1, 4) {
 				// names a certificate enforcer adds on top of the requested ones
 				extra := gen.GenNames(re, true, k.Levels).DNS
